@@ -63,7 +63,12 @@ def digest(obj):
 def ok_outcome(api, value):
     c = canon_value(api, value)
     d, s = digest(c)
-    return {'k': 'ok', 'd': d, 'p': s[:240]}
+    o = {'k': 'ok', 'd': d, 'p': s[:240]}
+    if api == 'format':
+        o['n'] = len(value)
+        if len(value) <= 20000:
+            o['v'] = value
+    return o
 
 
 def exc_outcome(exc):
